@@ -43,7 +43,7 @@ theorem c04_bridge (q : Block) (h : hasErrors (Resolve.resolve q).diags = false)
   Resolve.resolve_wellScoped true q ((no_errors_iff q).1 h)
 
 /-- The same with `¬ hasErrors` spelled as a proposition. -/
-theorem c04_bridge' (q : Block) (h : ¬ hasErrors (Resolve.resolve q).diags = true) :
+theorem c04_bridge_prop (q : Block) (h : ¬ hasErrors (Resolve.resolve q).diags = true) :
     WellScoped (Resolve.resolve q).root :=
   c04_bridge q (by simpa using h)
 
